@@ -31,13 +31,14 @@
    vnacal_new_set_m_error frees through a local copy and leaves vn_m_error_vector set); [NHoldEarly] the
    shape of C12-9 (_vnacal_new_get_parameter takes its hold before the recursion and releases it only when
    its own malloc fails); [NSplineLate] vnacal_new_set_m_error before the repair DI90 (the vector is allocated and zeroed
-   before _vnacommon_spline_calc runs, so a failing spline leaves it behind).  No proofs in this file. *)
+   before _vnacommon_spline_calc runs, so a failing spline leaves it behind); [NWriteBackLate] the write-back of vnacal_new_solve before the
+   repair DI92 (the frequency vector of a parameter is allocated while the parameters are being overwritten).  No proofs in this file. *)
 Require Import List ZArith Bool Arith Lia.
 Import ListNotations.
 Require Import LV.Mem.Alloc LV.Mem.PropList.
 Open Scope Z_scope.
 
-Inductive nvariant := NFixed | NClearDangling | NHoldEarly | NSplineLate.
+Inductive nvariant := NFixed | NClearDangling | NHoldEarly | NSplineLate | NWriteBackLate.
 
 (* ------------------------------------------------------------------ generic request sequences *)
 (* requests of the given sizes, one after the other; stops at the first failure.
@@ -376,8 +377,8 @@ Definition msv_sizes (v : vnew) : list Z :=
      flat_map (fun s => if (c_tterms c - 1 <? count_sys (vn_eqs v) s)%nat then [16 * 16] else []) (seq 0 (c_systems c))
    else []).
 
-(* write-back of the solved vectors: for every unknown parameter, in list order *)
-Fixpoint write_back (freqs : nat) (ps : list prm) (unk : list nat) (pv : list block_id)
+(* the write-back before the repair DI92: for every unknown parameter, in list order, release the old vectors, allocate, install *)
+Fixpoint write_back_late (freqs : nat) (ps : list prm) (unk : list nat) (pv : list block_id)
   : M (bool * list prm * list block_id) :=      (* all stored, parameters, p-vectors still owned by the solve state *)
   match unk with
   | [] => ret (true, ps, pv)
@@ -397,11 +398,55 @@ Fixpoint write_back (freqs : nat) (ps : list prm) (unk : list nat) (pv : list bl
           | None => ret (false, upd ps u (mkPr (pkd p) (pheld p) None None O), pv)
           | Some (fv, fn) =>
               (if (freqs =? 0)%nat then ret tt else touch fv) ;;;
-              b <- write_back freqs (upd ps u (mkPr (pkd p) (pheld p) fv (Some g) fn)) rest pv' ;;
+              b <- write_back_late freqs (upd ps u (mkPr (pkd p) (pheld p) fv (Some g) fn)) rest pv' ;;
               ret b
           end
       end
   end.
+
+(* the write-back (DI92): first the new frequency vector of every parameter whose number of frequencies changes (new_frequency_vector[],
+   NULL where none is needed); when one cannot be had the ones obtained are released and nothing was touched ... *)
+Fixpoint prealloc (freqs : nat) (ps : list prm) (unk : list nat) (acc : list (option block_id)) : M (bool * list (option block_id)) :=
+  match unk with
+  | [] => ret (true, acc)
+  | u :: rest =>
+      if (freqs =? 0)%nat || (pfn (nth u ps pdummy) =? freqs)%nat then prealloc freqs ps rest (acc ++ [None])
+      else m <- malloc (Z.of_nat freqs * 8) ;;
+           match m with
+           | None => ret (false, acc)
+           | Some b => prealloc freqs ps rest (acc ++ [Some b])
+           end
+  end.
+
+(* ... then the commit, which makes no request: release the old gamma vector, replace the frequency vector when a new one was
+   allocated or the count differs, take the p-vector *)
+Fixpoint commit (freqs : nat) (ps : list prm) (unk : list nat) (nf : list (option block_id)) (pv : list block_id)
+  : M (list prm * list block_id) :=
+  match unk with
+  | [] => ret (ps, pv)
+  | u :: rest =>
+      match nf, pv with
+      | f :: nf', g :: pv' =>
+          let p := nth u ps pdummy in
+          free (pgv p) ;;;
+          fv <- (match f with
+                 | Some b => free (pfv p) ;;; ret (Some b)
+                 | None => if (pfn p =? freqs)%nat then ret (pfv p) else free (pfv p) ;;; ret None
+                 end) ;;
+          (if (freqs =? 0)%nat then ret tt else touch fv) ;;;
+          commit freqs (upd ps u (mkPr (pkd p) (pheld p) fv (Some g) freqs)) rest nf' pv'
+      | _, _ => fail NullDeref                               (* assert(vnss.vnss_p_vector[index] != NULL) *)
+      end
+  end.
+
+Fixpoint somes (l : list (option block_id)) : list block_id :=
+  match l with [] => [] | Some b :: t => b :: somes t | None :: t => somes t end.
+
+Definition write_back (freqs : nat) (ps : list prm) (unk : list nat) (pv : list block_id) : M (bool * list prm * list block_id) :=
+  r <- prealloc freqs ps unk [] ;;
+  (let (ok, nf) := r in
+   if negb ok then frees (somes nf) ;;; ret (false, ps, pv)
+   else c <- commit freqs ps unk nf pv ;; ret (true, fst c, snd c)).
 
 (* the request lists of _vnacal_new_solve_init (after the msv vector) and of _vnacal_calibration_alloc *)
 Definition init_m_sizes (v : vnew) : list Z := flat_map (fun _ => msv_sizes v) (seq 0 (vn_nmeas v)).
@@ -466,7 +511,7 @@ Definition solve (nv : nvariant) (v : vnew) (ps : list prm) (body : nat) (trl : 
                        if negb ok6 then frees tb ;;; frees (rev cal) ;;; vs_free sp ;;; ret (v, ps, Err ENOMEM)
                        else if fails then frees tb ;;; frees (rev cal) ;;; vs_free sp ;;; ret (v, ps, Err EINVAL)
                        else
-                         w <- write_back (c_freqs c) ps (vn_unk v) (tl sp) ;;
+                         w <- (match nv with NWriteBackLate => write_back_late | _ => write_back end) (c_freqs c) ps (vn_unk v) (tl sp) ;;
                          (let '(okw, ps', pv') := w in
                           if negb okw then
                             frees tb ;;; frees (rev cal) ;;; vs_free (ocons (hd_error sp) pv') ;;; ret (v, ps', Err ENOMEM)
